@@ -134,7 +134,20 @@ def c11_history(col, rng, hidx, jobref=None):
     for step in range(rng.randint(3, 10)):
         k = rng.choice(list(insts))
         d, m = insts[k], model[k]
-        op = rng.choice(["call", "call", "exec", "exec", "setup", "setup_t", "copy", "exec_create", "exec_run_pending"])
+        op = rng.choice(["call", "call", "exec", "exec", "setup", "setup_t", "copy", "exec_create", "exec_run_pending", "config"])
+        if op == "config":
+            # a configuration reload that names a (possibly setup) node must not change what is a setup node
+            i = rng.randrange(n)
+            uses = sum(1 for m_ in sp["nodes"] if m_["fn"] == sp["nodes"][i]["fn"])
+            if uses == 1:
+                conf = {"nodes": {ids[i]: {"priority": rng.randint(-2, 6)}}}
+                try:
+                    d.config_from_dict(conf)
+                    hist.append(("config_from_dict", k, conf))
+                    col.counters["c11_config_reloads"] += 1
+                except BaseException as e:  # noqa: BLE001
+                    col.violation(pid, "config_reload_raised", dict(exc=repr(e)[:200], conf=conf, source=S.render(sp)), rp)
+            continue
         if op == "exec_create":
             ts = rng.sample(range(n), rng.randint(1, min(3, n)))
             kwp = {"target_nodes": [ids[i] for i in ts]}
@@ -182,7 +195,11 @@ def c11_history(col, rng, hidx, jobref=None):
         hist.append((op, k, S.jsonable(kw)))
         B.reset_log()
         probes.reset_counts()
-        res = probes.run_op(op, thunk)
+        B.Settings.controlled = rng.random() < 0.5  # controller-chosen completion orders for half of the operations
+        try:
+            res = probes.run_op(op, thunk)
+        finally:
+            B.Settings.controlled = False
         log = B.snapshot()
         ent, vals = observed(log)
         col.evaluations += 1
